@@ -172,17 +172,19 @@ def random_schedule(rng, front, n_events, weights=None, junk=None, max_ints=10, 
             elif a == 'RecvInterest':
                 params = rng.random() < 0.5
                 signed = params and rng.random() < 0.5
-                it = {'name': rng.choice(NAMES[1:]), 'params': params, 'signed': signed,
+                it = {'name': rng.choice(NAMES[1:]), 'params': params, 'pe': params and rng.random() < 0.3, 'signed': signed,
                       'digOk': (rng.random() < 0.75) if params else True,
-                      'tok': rng.choice([0, 0, 1, 2, 3, 4, 5]), 'life': rng.choice([1, 2, 3])}
-                env = rng.choice(['lp', 'lph']) if it['tok'] else rng.choice(['bare', 'lp', 'lph'])
+                      'tok': rng.choice([0, 0, 1, 2, 3, 4, 5]), 'life': rng.choice([0, 1, 1, 2, 3, 400])}
+                env = rng.choice(['lp', 'lph', 'lpo']) if it['tok'] else rng.choice(['bare', 'lp', 'lph', 'lpo'])
                 emit({'a': a, 'it': it, 'env': env})
             elif a == 'IntValFinish':
                 emit({'a': a, 'i': rng.choice(pend), 'v': rng.choice(verdicts)})
             elif a == 'Reply':
                 emit({'a': a, 'i': rng.choice(sorted(run.replyfn))})
             elif a == 'RecvJunk':
-                emit({'a': a, 'j': 'junk', 'hex': (junk(rng) if junk else rng.choice(JUNK_BASIC))})
+                hx = (junk(rng) if junk else rng.choice(JUNK_BASIC))
+                hx, jc = hx if isinstance(hx, tuple) else (hx, 'junk')
+                emit({'a': a, 'j': jc, 'hex': hx})
             elif a == 'Shutdown':
                 emit({'a': a})
                 if front == 'legacy':
